@@ -5,8 +5,10 @@
 #include <openssl/x509.h>
 #include <openssl/x509v3.h>
 
+#ifndef XC_STR_MAX
 #define XC_STR_MAX (1UL << 20)          /* strings of 0..2^20 bytes are explored (is_fresh needs a bound) */
 #define XC_LIST_MAX (1UL << 20)         /* lists of 0..2^20 elements (unbounded jobs) */
+#endif
 #define XV_ASN1_MAX (1 << 24)           /* A1 */
 #define XV_FILE_MAX ((1UL << 31) - 1)   /* A2 */
 
